@@ -523,6 +523,7 @@ func runC18Case(c *fw.Ctx, id string, cs c18Case) {
 			callB := mkCall(context.Background(), true)
 			opidB := fmt.Sprintf("%s%s-%d", sim.OpIDPrefix, id, opn)
 			h := make(chan struct{})
+			var hsMu sync.Mutex // guards fired and holdStart (hook runs in the client's goroutine)
 			var fired int32
 			var holdStart time.Time
 			bDone := make(chan []error, 1)
@@ -532,10 +533,14 @@ func runC18Case(c *fw.Ctx, id string, cs c18Case) {
 				if cl.Log.Count(func(e *sim.Event) bool { return e.Kind == "exec" && e.OpID == opidA }) == 0 {
 					return
 				}
-				if !atomic.CompareAndSwapInt32(&fired, 0, 1) {
+				hsMu.Lock()
+				if fired != 0 {
+					hsMu.Unlock()
 					return
 				}
+				fired = 1
 				holdStart = time.Now()
+				hsMu.Unlock()
 				hold.Store(h)
 				go func() { bDone <- send([]hrpc.Call{callB}, false) }()
 				time.Sleep(4 * time.Millisecond) // B is written while the clearing call is in progress
@@ -545,10 +550,19 @@ func runC18Case(c *fw.Ctx, id string, cs c18Case) {
 			if time.Since(tA) > cs.Timeout*5/10 {
 				slow = true
 			}
-			if atomic.LoadInt32(&fired) == 0 {
+			hsMu.Lock()
+			notYet := fired == 0
+			hsMu.Unlock()
+			if notYet {
 				time.Sleep(3 * time.Millisecond)
 			}
-			wasFired := !atomic.CompareAndSwapInt32(&fired, 0, 2) // 2: too late, the hook stays quiet
+			hsMu.Lock()
+			wasFired := fired == 1
+			if !wasFired {
+				fired = 2 // too late, the hook stays quiet
+			}
+			hs := holdStart
+			hsMu.Unlock()
 			clearHook.Store(func() {})
 			if errsA[0] != nil && slow {
 				c.Inconclusive("harness-slower-than-read-timeout")
@@ -565,7 +579,7 @@ func runC18Case(c *fw.Ctx, id string, cs c18Case) {
 			mu.Lock()
 			fc := conns[len(conns)-1]
 			mu.Unlock()
-			allArrived, armed, dl, wt := awaitArmed(fc, []string{opidB}, holdStart)
+			allArrived, armed, dl, wt := awaitArmed(fc, []string{opidB}, hs)
 			switch {
 			case !allArrived:
 				c.Inconclusive("held-requests-not-settled")
@@ -573,7 +587,7 @@ func runC18Case(c *fw.Ctx, id string, cs c18Case) {
 				c.Count("outstanding_deadline_checks", 1)
 				c.Count("race_clear_checks", 1)
 				c.Violate(id, "silent:no-deadline-while-outstanding", fmt.Sprintf("%s: a request sent while the connection was becoming idle is outstanding and unanswered, but %v after it reached the server no read deadline is armed after its write: %s",
-					where, time.Since(holdStart).Round(time.Millisecond), cs), cs)
+					where, time.Since(hs).Round(time.Millisecond), cs), cs)
 			default:
 				c.Count("outstanding_deadline_checks", 1)
 				c.Count("race_clear_checks", 1)
@@ -583,7 +597,7 @@ func runC18Case(c *fw.Ctx, id string, cs c18Case) {
 			}
 			hold.Store((chan struct{})(nil))
 			close(h)
-			if held := time.Since(holdStart); held > cs.Timeout*8/10 {
+			if held := time.Since(hs); held > cs.Timeout*8/10 {
 				c.Inconclusive("replies-held-too-long")
 				return
 			}
